@@ -2,7 +2,7 @@
 from .lib.match import *
 from .lib.paths import explore
 
-SELECT = r'^bluetoe::csc::details::control_point_handler::'
+SELECT = r'^bluetoe::csc::details::control_point_handler::|^bluetoe::mixin_write_indication_control_point_handler::call_write_handler$'
 UNITS = lambda u: u in ('w_inst_svc',) or u.startswith('t_services_cscs')
 CP = 'bluetoe::csc::details::control_point_handler::'
 FLAG = 'procedure_in_progress_'
@@ -56,6 +56,35 @@ def run(chk, facts, tier):
     chk.rule('busy-only-when-pending', 'procedure_already_in_progress is returned only on the procedure_in_progress_ == true edge, before the flag is set; every return that announces a response indication (success, true) leaves the flag set by this call', floor=2)
     chk.rule('response-clears-and-echoes', 'csc_read_control_point clears procedure_in_progress_ on every path and writes the request opcode (case constant / current_opcode_) into out_buffer[1]; '
              'csc_write_control_point stores current_opcode_ = *value before dispatch', floor=2)
+    chk.rule('accepted-write-always-answered', 'mixin_write_indication_control_point_handler::call_write_handler (binds the control point handler to the ATT write) calls the handler only behind '
+             'configured_for_indications(), returns the handler\'s own code on every path after the call and requests the indication exactly under the handler\'s second result: '
+             'a handler call that set procedure_in_progress_ is always followed by the response indication that clears it', floor=1)
+    for fn in variants(facts, 'bluetoe::mixin_write_indication_control_point_handler::call_write_handler', chk):
+        hs = [c for c in fn.body.find(lambda n: n.d.get('call')) if c.callee() is not None and not isinstance(c.callee(), str) and c.callee().k == 'BinaryOperator' and c.callee().o in ('.*', '->*')]
+        if not chk.require(len(hs) == 1, 'call_write_handler: expected exactly one call through the handler member pointer, found %d' % len(hs)):
+            continue
+        h = hs[0]
+        res = [d.n for d in fn.body.find(lambda n: n.k == 'VarDecl' and n.c) if strip_casts(d.c[0]) is h]
+        def is_res(n, member):
+            n = strip_casts(n)
+            if n is None or n.k not in ('MemberExpr', 'CXXDependentScopeMemberExpr') or n.n != member:
+                return False
+            b = strip_casts(base_object(n))
+            return b is h or (b is not None and b.n in res)
+        ats = guard_atoms(fn, h)
+        cfg = any(op == '!=' and r == 0 and not isinstance(l, int) and strip_casts(l).is_call('configured_for_indications') for l, op, r in ats)
+        why = '' if cfg else 'the handler runs (and may mark a procedure as in progress) for a client that has not enabled indications: the write is then refused with "CCCD improperly configured", no response is ever indicated and the control point stays busy'
+        after = [r for r in fn.returns() if precedes(fn, h, r) or fn.paths_avoiding([fn.block_of(h)], fn.block_of(r), set()) and fn.block_of(h) != fn.block_of(r)]
+        okr = bool(after) and all(is_res(ret_value(r), 'first') for r in after)
+        if cfg and not okr:
+            why = 'a return after the handler call does not pass the handler\'s result code on'
+        ind = fn.body.calls('indicate')
+        oki = len(ind) == 1 and precedes(fn, h, ind[0]) and any(op == '!=' and r == 0 and is_res(l, 'second') for l, op, r in guard_atoms(fn, ind[0]) if not isinstance(l, int)) \
+            and len(guard_atoms(fn, ind[0])) == len(ats) + 1
+        if cfg and okr and not oki:
+            why = 'the response indication is not requested exactly when the handler asks for it'
+        ok = cfg and okr and oki
+        chk.instance('accepted-write-always-answered', fn, 'handler call behind the CCCD test, result passed on, indicate() iff second', ok, why, node=h, key='binder')
     for fn in variants(facts, CP + 'csc_write_control_point', chk):
         def on_node(ts, node):
             flag, rets = ts
